@@ -44,7 +44,8 @@ CLAIMED = {
         text="Theorems (Props/C16.v): in-range headers and blocks are encoded exactly as the SEMI E4 layout and decode back (C16_header_exact, C16_block_exact); "
              "any body splits into <=244-byte blocks numbered 1..n with the end bit on the last only, other fields preserved, data concatenating to the body "
              "(C16_split); in any received trace - blocks of other system bytes interleaved anywhere - the blocks of one message yield its body under its last "
-             "block's header, exactly once (C16_reassembly_interleaved, locality + induction over the trace); a block with any single byte altered is never "
+             "block's header, exactly once (C16_reassembly_interleaved, locality + induction over the trace), also when blocks of an attempt that was never completed are still "
+             "kept for the same system bytes (C16_reassembly_after_abandoned_attempt); a block with any single byte altered is never "
              "accepted (C16_corruption_detected: arithmetic on the checksum, no wrap below 65536). Framing constants are regenerated from the source.",
         note=NOTE_COMMON + " The reassembled message reports the last block's header (block number n); messages above 32767 blocks are outside the statement.",
         technique="Rocq proof (bit-level header lemmas, trace induction with a per-system-id locality lemma, checksum arithmetic) + regenerated constants + in-Coq differential correspondence",
@@ -75,24 +76,27 @@ CLAIMED = {
     ),
     "C19": dict(
         text="Theorems (Props/C19.v): the tokenizer splits any layout of a token sequence - any whitespace, any comments anywhere - into exactly those tokens "
-             "(C19_layout_irrelevant, induction over tokens and layout elements); the documentation's own examples generate the documented shapes and keys "
-             "(C19_documented_examples); bracket/name errors are rejected on instances (C19_rejection_examples); the naming heuristic's failure is proved "
-             "(C19_name_handdown_refuted, known finding). The general shape statement (any well-formed definition yields doc_shape) is decided by the differential "
-             "correspondence of the model (tokenizer, validation, _generate_from_sfdl, generate) with the code and with the documented-shape specification on random "
-             "definitions; it is not yet a theorem.",
-        note=NOTE_COMMON + " The data item attribute table is regenerated reflectively (imports /repo's secsgem.secs.data_items). Empty lists are outside the documented grammar.",
-        technique="Rocq proof (lexer layout lemma; computed instances) + translator-regenerated data item table + in-Coq differential correspondence against the documented-shape specification",
+             "(C19_layout_irrelevant); for EVERY definition of the documented grammar in the domain sfdl_dom (catalogue item names, lists with at least one member, distinct "
+             "documented keys, naming_supported) written in ANY layout, the text is accepted and the generated structure has the documented shape - one member: open array, "
+             "otherwise a record with the documented keys - at any nesting depth and width (C19_documented_shape, from C19_validation_accepts, C19_format_of_tokens, "
+             "C19_shape_of_format by nested induction over the definition); the validation only accepts closed definitions over the list tag or known names "
+             "(C19_accepts_only_closed_known, C19_structure_only_of_closed); the documentation's examples and rejections as computed instances; the naming heuristic's failure "
+             "is proved (C19_name_handdown_refuted, known finding). The model (tokenizer, validation, _generate_from_sfdl, generate) is tied to the code by differential "
+             "correspondence on random and exhaustively enumerated small definitions and their bracket/name mutations.",
+        note=NOTE_COMMON + " The data item attribute table is regenerated reflectively (imports /repo's secsgem.secs.data_items). Empty lists are outside the documented grammar; an unnamed open list whose single member is a named list gets no key from the documentation and is outside naming_supported.",
+        technique="Rocq proof (lexer layout lemma; print/parse theorem for the whole reader by nested induction over definitions; computed instances) + translator-regenerated data item table + in-Coq differential correspondence against the documented-shape specification",
         design="5/C19",
     ),
     "C15": dict(
-        text="Theorems (Props/C15.v): on any text the reader's recursion is bounded by the number of tokens - it ends with an item or an error "
-             "(C15_reader_terminates), every returned item consumed tokens (C15_reader_consumes), scalar values are accepted only up to a closing bracket "
-             "(C15_scalar_needs_closing_bracket), every integer printed by to_sml is read back unchanged (C15_integers_roundtrip: decimal printing/parsing, any "
-             "size); computed instances of the full round trip (quotes, control characters, JIS-8, nesting) and of the rejections. The general round trip "
-             "(parse(print i) = i for every item) is decided by the differential correspondence of the model (tokenizer, reader, printers) and by the round-trip "
-             "specification on generated items; it is not yet a theorem.",
+        text="Theorems (Props/C15.v): for EVERY item of the domain sml_dom - lists at any depth and length, binary, boolean, A and J text that the codec can encode (quotes, "
+             "control characters, blanks, brackets, non-ASCII), every integer class at any value in range, empty F4/F8 - the text to_sml prints at any indentation is tokenized "
+             "and read back by from_sml as exactly that item (C15_roundtrip, from C15_tokens_of_printed_text and C15_reader_inverts_printer by nested induction over the item); "
+             "on any text the reader's recursion is bounded by the number of tokens (C15_reader_terminates), every returned item consumed tokens (C15_reader_consumes); an item "
+             "is only returned for tokens that start with '<' and a known type name and whose consumed part ends with '>' (C15_accepts_only_closed_known, "
+             "C15_scalar_needs_closing_bracket); every integer printed is read back unchanged (C15_integers_roundtrip); computed instances. Non-empty F4/F8 items (float "
+             "formatting, float()) are decided by the differential correspondence and the observed round trip only.",
         note=NOTE_COMMON + " float(text) and float formatting are not modelled (float items are judged by the observed round trip only); int('1_0') and non-ASCII digits are skipped; bools held by integer items are outside the item domain.",
-        technique="Rocq proof (termination/consumption by induction on fuel and tokens, decimal round trip) + regenerated constants + in-Coq differential correspondence",
+        technique="Rocq proof (print/parse round trip by nested induction with lexer-state lemmas, 256-case byte-code facts lifted from evaluation, termination/consumption by induction on fuel and tokens, decimal round trip) + regenerated constants + in-Coq differential correspondence",
         design="5/C15",
     ),
     "C03": dict(
@@ -149,7 +153,8 @@ CLAIMED = {
              "class hierarchies with the ways it can finish, read off its return statements): every way a shipped callback returns is the secondary (same stream, function+1), "
              "possibly sent by the callback itself with everything after it guarded (C08_shipped_callbacks, decided over the finite tables); hence for ALL stream/function "
              "numbers, registered or not, and every way the callback can finish including an exception, a primary with W-bit gets exactly one reply - secondary, SxF0 or S9F5 "
-             "(C08_answered_exactly_once); without W-bit the handler is silent exactly when nothing is registered (C08_no_wbit_silent_iff), which refutes the statement's last "
+             "(C08_answered_exactly_once), and so for ANY table of registered callbacks whose ways of returning are the secondary - also user callbacks on streams without an SxF0 in the "
+             "regenerated catalogue, where a failing callback is answered S9F5 (C08_any_registered_callbacks); without W-bit the handler is silent exactly when nothing is registered (C08_no_wbit_silent_iff), which refutes the statement's last "
              "sentence (C08_reply_without_wbit_refuted, known finding). Tied to the code by sending generated, empty and garbage bodies to real handlers in both roles.",
         note=NOTE_COMMON + " The dispatch function itself (_handle_stream_function) and 'replies use message.header.system' are hand-modelled and tied by correspondence; which "
              "bodies make a callback raise is not modelled (every outcome is quantified over instead).",
